@@ -52,7 +52,41 @@ def obligations(cx):
                   statement="get_penetrant_data returns exactly the experiments of the component, in order, in a fresh list")
             nlists += 1
             if r.ex.ext_writes: cx.ob("penetrant.%s.frame" % (''.join(pattern) or 'empty'), [], FALSE, kind='frame', function=gpd)
-    cx.bounded.append(dict(function=gpd, bound="all %d experiment lists of length <= %d over two components" % (nlists, L), reason="filter() over a list: unrolled"))
+    cx.bounded.append(dict(function=gpd, bound="all %d experiment lists of length <= %d over two components" % (nlists, L), reason="filter() over a list: unrolled (kept as a cross-check of the generic argument below)"))
+    # ------------------------------------------------------------------ get_penetrant_data, lists of ARBITRARY length: the builtin filter() by its contract
+    # (the sub-list of elements satisfying the predicate, in order); proved from the body: which list is filtered, with which predicate on a
+    # generic element, and that the result is a fresh list wrapped in IdealExperiments.  Component names are symbolic (numeric codes: only == is used).
+    from ..symex import Seq as _Seq
+    mlen = var('mlen', 'I'); jg = var('jg', 'I'); qname = var('qname')
+    def el(i): return Obj('IdealExperiment', dict(name=Opaque('name'), temperature=app('eT', lift(i)), component=W.mk(src, 'Component', name=app('cname', lift(i)), molecular_weight=app('cM', lift(i)), vapour_pressure_constants=None, heat_capacity_constants=None, uniquac_constants=None),
+                                                  permeance=W.permeance(src, app('eP', lift(i))), activation_energy=None, comment=None), owner='external')
+    allexps = _Seq(mlen, el, owner='external', tag=('all-experiments',))
+    memg = W.membrane(src, experiments=Obj('IdealExperiments', dict(experiments=allexps), owner='external'))
+    compq = W.mk(src, 'Component', name=qname, molecular_weight=var('M1'), vapour_pressure_constants=None, heat_capacity_constants=None, uniquac_constants=None)
+    seen = []
+    def filter_contract(ex, b):
+        f, xs = b['args']
+        e = xs.fn(jg) if isinstance(xs, _Seq) else None
+        pv = ex.apply(f, [e], {}) if e is not None else None
+        out = _Seq(var('nf', 'I'), lambda i: Opaque('filtered element'), tag=('filter-result',))
+        seen.append((xs, pv, out))
+        return out
+    r = only_return(cx.explore(call(src, gpd, [compq], self_obj=memg), contracts={'filter()': filter_contract}, pre=[mlen >= 0, jg >= 0, jg < mlen]), gpd)
+    okcall = len(seen) == 1 and seen[0][0] is allexps
+    cx.ob("penetrant.generic.filters-the-membrane-experiments", [], blit(okcall), kind='paths', function=gpd, statement="exactly one filter() call, over self.ideal_experiments.experiments")
+    if okcall:
+        pv = seen[0][1]
+        want = eq(app('cname', jg), qname)
+        okp = isinstance(pv, (B, bool))
+        cx.ob("penetrant.generic.predicate-is-boolean", [], blit(okp), kind='paths', function=gpd)
+        if okp:
+            cx.ob("penetrant.generic.predicate.only-this-component", r.pc + [tob(pv)], want, function=gpd, statement="an experiment kept by the predicate belongs to the requested component")
+            cx.ob("penetrant.generic.predicate.every-experiment-of-the-component", r.pc + [want], tob(pv), function=gpd, statement="every experiment of the requested component is kept by the predicate")
+        res = r.value
+        okr = isinstance(res, Obj) and res.cls == 'IdealExperiments' and isinstance(res.f['experiments'], _Seq) and res.f['experiments'].tag == ('filter-result',) and res.f['experiments'] is not allexps
+        cx.ob("penetrant.generic.result", [], blit(okr), kind='paths', function=gpd, statement="the result is IdealExperiments over list(filter(...)): a fresh list holding the kept experiments in order")
+    cx.ob("penetrant.generic.frame", [], blit(not r.ex.ext_writes), kind='frame', function=gpd)
+    cx.assume_note("assumed contract of the builtin filter(pred, xs): the elements of xs satisfying pred, in order; list() of it is a fresh list (get_penetrant_data is proved for lists of arbitrary length against this contract)")
     # ------------------------------------------------------------------ calculate_activation_energy
     cae = 'Membrane.calculate_activation_energy'
     for stated in (True, False):
@@ -195,7 +229,7 @@ def obligations(cx):
     cx.assume_note("assumed contract of min(range(n), key=f): returns a minimiser of f (first on ties); ties are excluded by the property")
     cx.assume_note("assumed contract of numpy.linalg.lstsq on the design [x, 1]: least-squares line; exact line for collinear data with >= 2 distinct abscissae")
     cx.assume_note("activation energies of one component's experiments are either all stated or all unstated (mixed lists not modelled)")
-    cx.assume_note("get_penetrant_data verified on all concrete experiment lists up to the stated bound (bounded part), then used by contract for lists of arbitrary length n >= 1")
+    cx.assume_note("get_penetrant_data: proved for lists of arbitrary length against the assumed filter() contract (penetrant.generic.*), cross-checked by unrolling on all concrete lists up to the stated bound; used by contract elsewhere")
 
 
 def units_obligations(cx, prefix="callee.get_permeance"):
